@@ -692,7 +692,8 @@ fn main() {
         }
         let r = catch_unwind(AssertUnwindSafe(|| -> (String, String) {
             match f[0] {
-                "S" => match run_socket(&f) {
+                // SI: same as S but uses ops the model does not have (set_config of the inbound limits): implementation only
+                "S" | "SI" => match run_socket(&f) {
                     Ok((m, t)) => (m, t),
                     Err(e) => (line.clone(), format!("bad-case:{e}")),
                 },
